@@ -157,3 +157,17 @@ check('C13', TV,
       'and refinement labels are finite concrete probes (auxiliary, reported separately in evidence).',
       'CrossHair symbolic execution of pure-Python kernels + SMT over symbolic rule coefficients',
       'DESIGN.md section 4 C13')
+
+check('C18', TV,
+      'Carry-over: z3 decides that the real to_socp() output restricted to the original rows/columns has the same '
+      'feasible set as the input without its exponential cones (types, objective, bounds identical) and the input '
+      'formula is unchanged by the call (also second call / later solve). Block meaning: for every appended block of the '
+      'real matrix (degrees 4-8, two cut settings, different cone positions) z3 discharges the stage lemmas split, cuts, '
+      'the three rotated cones f*al>=y^2, g*al>=(y+al)^2, h*al>=g^2, the Taylor row and its degree-4 polynomial '
+      'consequence v0*al^3 >= al^4*T4(y/al), every squaring stage, and completability of each stage. Accuracy: '
+      '(1+delta_L)^(2^L) <= 1+1e-3 with exact rational enclosures of e, decided as ground rational arithmetic. Concrete '
+      'layer: real soc_solve (ECOS) on a grid of exponents within 1e-3 of exp.',
+      'Trusted/stated lemmas: composition of the squaring stages (monotone squaring), Taylor remainder, perspective split '
+      'for the cut-off rows. The real SOC solver is used only in the concrete layer.',
+      'SMT stage lemmas (QF_LRA/QF_NRA) on the real to_socp() matrix + ground rational accuracy bound',
+      'DESIGN.md section 4 C18')
